@@ -33,6 +33,7 @@ class Frame:
         self.in_loop = parent.in_loop if parent is not None else 0
         self.cond_depth = parent.cond_depth if parent is not None else 0
         self.quiet = parent.quiet if parent is not None else False
+        self.nonempty = set(parent.nonempty) if parent is not None else set()
 
     def emit(self, node):
         if not self.quiet:
@@ -47,6 +48,7 @@ class Frame:
         f.in_loop = self.in_loop
         f.cond_depth = self.cond_depth
         f.quiet = self.quiet
+        f.nonempty = set(self.nonempty)
         return f
 
     def result(self):
@@ -100,8 +102,9 @@ class Result:
 class Interp(ExprMixin, CallMixin):
     max_depth = 10
 
-    def __init__(self, model):
+    def __init__(self, model, deep=False):
         self.model = model
+        self.deep = deep
         self._var_memo = {}
         self._var_stack = set()
         self._pid = 0
@@ -367,12 +370,26 @@ class Interp(ExprMixin, CallMixin):
         a.cond_depth += 1
         b.cond_depth += 1
         self.refine_types(st.test, cond, a)
+        self.assume(cond, True, a)
+        self.assume(cond, False, b)
+        keys_before = self.key_snapshot()
         sa = self.exec_body(st.body, a)
+        keys_a = self.key_changes(keys_before)
+        keys_mid = self.key_snapshot()
         sb = self.exec_body(st.orelse, b)
+        keys_b = self.key_changes(keys_mid)
         node.then_status, node.else_status = sa, sb
         if sa == 'next' and sb == 'next':
+            self.definite_keys([keys_a, keys_b], fr)
             self.merge_env(fr, cond, a, b)
+            fr.nonempty = a.nonempty & b.nonempty
             return 'next'
+        if sa != 'next' and sb == 'next':
+            self.definite_keys([keys_b], fr)
+            fr.nonempty = b.nonempty
+        if sb != 'next' and sa == 'next':
+            self.definite_keys([keys_a], fr)
+            fr.nonempty = a.nonempty
         if sa == 'next':
             fr.env = a.env
             fr.yields_complete = fr.yields_complete and a.yields_complete
@@ -386,6 +403,46 @@ class Interp(ExprMixin, CallMixin):
         if 'break' in (sa, sb) or 'continue' in (sa, sb):
             return 'break' if 'break' in (sa, sb) else 'continue'
         return 'return' if 'return' in (sa, sb) else 'raise'
+
+    def assume(self, cond, value, fr):
+        """record emptiness facts implied by a branch condition"""
+        from .values import show as _show
+        if value and not isinstance(cond, bool) and not (isinstance(cond, Sym) and cond.op in ('cmp', 'not', 'boolor', 'booland', 'isinstance')):
+            fr.nonempty.add(_show(cond))
+        if not value and isinstance(cond, Sym) and cond.op == 'not':
+            fr.nonempty.add(_show(cond.args[0]))
+        if value and isinstance(cond, Sym) and cond.op == 'booland':
+            for a in cond.args:
+                self.assume(a, True, fr)
+        if isinstance(cond, Sym) and cond.op == 'cmp':
+            op, a, b = cond.args
+            if isinstance(a, Sym) and a.op == 'len' and isinstance(b, int):
+                if (value and op in ('>', '>=') and b >= (0 if op == '>' else 1)) or (not value and op in ('<', '==') and b <= 1 and (op != '==' or b == 0)):
+                    fr.nonempty.add(_show(a.args[0]))
+
+    def key_snapshot(self):
+        return {id(p): (p, dict(p.keys)) for p in self.parsers}
+
+    def key_changes(self, snap):
+        out = {}
+        for p in self.parsers:
+            old = snap.get(id(p), (p, {}))[1]
+            ch = {k for k, v in p.keys.items() if old.get(k) is not v}
+            if ch:
+                out[id(p)] = (p, ch)
+        return out
+
+    def definite_keys(self, branches, fr):
+        """keys (re)defined on every continuing branch are definitely defined afterwards"""
+        if fr.cond_depth:
+            return
+        first = branches[0]
+        for pid, (p, ks) in first.items():
+            common = set(ks)
+            for other in branches[1:]:
+                common &= other.get(pid, (p, set()))[1]
+            for k in common:
+                p.maybe.discard(k)
 
     def refine_types(self, test, cond, fr):
         """``if isinstance(x, T)`` (possibly inside ``and``): x has type T in the then branch."""
@@ -429,10 +486,54 @@ class Interp(ExprMixin, CallMixin):
             if not broke and st.orelse:
                 return self.exec_body(st.orelse, fr)
             return 'next'
+        cnt = self.range_count(it)
+        if cnt is not None and 0 < cnt <= 8 and not search:
+            lo = it.args[0] if len(it.args) > 1 else 0
+            step = it.args[2] if len(it.args) > 2 else 1
+            fr.unrolled = getattr(fr, 'unrolled', 0) + 1
+            fr.in_loop += 1
+            try:
+                for i in range(cnt):
+                    self.bind_target(st.target, lo if i == 0 else self.binop(ast.Add(), lo, i * step), fr, st)
+                    status = self.exec_body(st.body, fr)
+                    if status == 'break':
+                        break
+                    if status in ('return', 'raise'):
+                        return status
+            finally:
+                fr.unrolled -= 1
+                fr.in_loop -= 1
+            return 'next'
         node = Loop('for', it, ast.unparse(st.target), [], st)
         node.search = search
         fr.emit(node)
         return self.symbolic_loop(st, fr, node, Sym('elem', it))
+
+    @staticmethod
+    def range_count(it):
+        """number of iterations of ``range(lo, lo + d, s)`` when d and s are constants"""
+        from .canon import affine
+        from .values import show as _show
+        if not (isinstance(it, Sym) and it.op == 'range' and 2 <= len(it.args) <= 3):
+            return None
+        lo, hi = it.args[0], it.args[1]
+        step = it.args[2] if len(it.args) == 3 else 1
+        if not isinstance(step, int) or step <= 0:
+            return None
+
+        def atom(x):
+            if isinstance(x, Sym) and x.op in ('plen', 'ulen', 'len', 'param'):
+                return _show(x)
+            if isinstance(x, FieldV):
+                return _show(x)
+            return None
+        a, b = affine(lo, atom), affine(hi, atom)
+        if a is None or b is None or a[1] != b[1]:
+            return None
+        d = b[0] - a[0]
+        if d < 0:
+            return 0
+        return (d + step - 1) // step
 
     @staticmethod
     def contains_break(st):
@@ -464,6 +565,7 @@ class Interp(ExprMixin, CallMixin):
         sub.in_loop += 1
         sub.cond_depth += 1
         before = dict(sub.env)
+        list_lens = {n: len(v.items) for n, v in sub.env.items() if isinstance(v, ListV)}
         if elem is not None:
             self.bind_target(st.target, elem, sub, st)
         status = self.exec_body(st.body, sub)
@@ -475,6 +577,10 @@ class Interp(ExprMixin, CallMixin):
             old = before.get(n)
             if old is None and n not in before:
                 fr.env[n] = Sym('loopvar', new)
+                continue
+            if isinstance(new, ListV) and new is old and n in list_lens and len(new.items) > list_lens[n]:
+                k = list_lens[n]
+                fr.env[n] = ListV(new.items[:k] + [Sym('repeat', *new.items[k:])], False)
                 continue
             if same_value(old, new):
                 fr.env[n] = old if n in fr.env else new
@@ -506,13 +612,16 @@ class Interp(ExprMixin, CallMixin):
         node = Try([], [], [], [], st)
         fr.emit(node)
         body = self.fork(fr, node.body)
+        snap0 = self.key_snapshot()
         sbody = self.exec_body(st.body, body)
         ends = []
         if sbody == 'next' and st.orelse:
             body.block = node.orelse
             sbody = self.exec_body(st.orelse, body)
+        key_sets = []
         if sbody == 'next':
             ends.append(body)
+            key_sets.append(self.key_changes(snap0))
         statuses = [sbody]
         for h in st.handlers:
             hb = []
@@ -528,14 +637,18 @@ class Interp(ExprMixin, CallMixin):
                     sub.env[n] = Sym('phi', fr.env.get(n, Unknown('unbound')), v)
             if h.name:
                 sub.env[h.name] = Sym('caught', excs)
+            snap_h = self.key_snapshot()
             sh = self.exec_body(h.body, sub)
             statuses.append(sh)
             if sh == 'next':
                 ends.append(sub)
+                key_sets.append(self.key_changes(snap_h))
         node.statuses = statuses
         if st.finalbody:
             fin = self.fork(fr, node.final)
             self.exec_body(st.finalbody, fin)
+        if key_sets:
+            self.definite_keys(key_sets, fr)
         if not ends:
             return 'return' if 'return' in statuses else 'raise'
         if len(ends) == 1:
